@@ -160,6 +160,31 @@ Proof.
 Qed.
 
 (* ------------------------------------------------------------------ *)
+(** * One tracking step *)
+
+(** A static sufficient condition for one tracking step: the operation returned the closure of its
+    tnext, or of its fnext while the tnext is a closure of another generator. *)
+Lemma track_exact g n0 t s p :
+  ident g s = Some p ->
+  (tnext g t = Some s \/ (fnext g t = Some s /\ forall a, tnext g t = Some a -> ident g a <> Some p)) ->
+  track g n0 (Some t) p = Some s.
+Proof.
+  intros Hid [Ht|(Hf & Hd)]; unfold track, is_exec_node.
+  - rewrite Ht, Hid, N.eqb_refl. reflexivity.
+  - destruct (tnext g t) as [a|] eqn:Ea.
+    + specialize (Hd a eq_refl). destruct (ident g a) as [q|] eqn:Eq.
+      * destruct (N.eqb_spec q p) as [->|]; [congruence|]. rewrite Hf, Hid, N.eqb_refl. reflexivity.
+      * rewrite Hf, Hid, N.eqb_refl. reflexivity.
+    + rewrite Hf, Hid, N.eqb_refl. reflexivity.
+Qed.
+
+(** ... and what happens otherwise: the tnext wins although the fnext runs. *)
+Lemma track_prefers_tnext g n0 t a s p :
+  tnext g t = Some a -> fnext g t = Some s -> ident g a = Some p -> ident g s = Some p ->
+  track g n0 (Some t) p = Some a.
+Proof. intros Ha Hs Hia His. unfold track, is_exec_node. rewrite Ha, Hia, N.eqb_refl. reflexivity. Qed.
+
+(* ------------------------------------------------------------------ *)
 (** * The debug loop against the plain loop *)
 
 Section Sim.
@@ -254,7 +279,9 @@ Section Sim.
           exists (hs2 ++ hs1). simpl. rewrite Hh2. simpl. rewrite Hh1, Hb2. simpl. rewrite Hb1.
           rewrite map_app, tracked_breaks_app, !app_assoc. auto.
       + (* a closure is returned: next iteration *)
-        destruct (IH _ _ _ _ _ _ (map snd hs1 ++ log) _ _ _ Hg1 Hrun) as (Hg3 & Hf3 & hs3 & Hh3 & Hp3 & Hb3).
+        assert (Hgm : good (mark d1 (tf_step g t p n))) by (destruct Hg1 as (A & B & C); unfold good; simpl; auto).
+        destruct (IH _ _ _ _ _ _ (map snd hs1 ++ log) _ _ _ Hgm Hrun) as (Hg3 & Hf3 & hs3 & Hh3 & Hp3 & Hb3).
+        simpl in Hf3, Hh3, Hb3.
         split; [auto|]. split; [congruence|].
         exists (hs3 ++ hs1).
         split; [rewrite Hh3, Hh1, app_assoc; reflexivity|].
@@ -304,7 +331,119 @@ Section Sim.
         assert (B' : sound (exit_call d2)) by (unfold sound in *; simpl; auto).
         destruct s2; try (inversion Hrun; subst; auto).
         eapply IH; eauto.
-      + eapply IH; eauto.
+      + eapply IH; [| |exact Hrun]; [unfold okmode in *; simpl; auto|unfold sound in *; simpl; auto].
+      + inversion Hrun; subst; auto.
+      + inversion Hrun; subst; auto.
+  Qed.
+
+  (** Exactness of the tracker from a static condition on the graph: if the two successors of a node
+      never come from the same generator, then as long as every closure returned is the one of the
+      running node's tnext or fnext, the tracked node is the running node. *)
+  Definition all_exact (hs : list (option node * option node)) : Prop :=
+    forall m t, In (m, t) hs -> m = t.
+
+  Lemma tf_step_track n0 t p s :
+    distinct_succ g -> tf_step g (Some t) p s = true -> track g n0 (Some t) p = Some s.
+  Proof.
+    intros Hd H. unfold tf_step in H. apply andb_prop in H. destruct H as (Hid & Hs).
+    assert (Hi : ident g s = Some p).
+    { unfold opt_pc_eqb in Hid. destruct (ident g s) as [q|]; [|discriminate]. apply N.eqb_eq in Hid. subst; auto. }
+    apply track_exact; auto.
+    apply orb_prop in Hs. destruct Hs as [Hs|Hs].
+    - left. unfold opt_is in Hs. destruct (tnext g t) as [x|]; [|discriminate]. apply Nat.eqb_eq in Hs. subst; auto.
+    - unfold opt_is in Hs. destruct (fnext g t) as [x|] eqn:Ef; [|discriminate]. apply Nat.eqb_eq in Hs. subst x.
+      destruct (tnext g t) as [a|] eqn:Ea.
+      + destruct (Nat.eq_dec a s) as [->|Hne]; [left; auto|].
+        right. split; auto. intros a' Ha'. inversion Ha'; subst a'.
+        rewrite <- Hi. apply (Hd t a s); auto.
+      + right. split; auto. intros a' Ha'. discriminate.
+  Qed.
+
+  Lemma dbg_exec_offcfg m t d : offcfg (snd (dbg_exec g m t d)) = offcfg d.
+  Proof.
+    assert (R : forall x, offcfg (resume x) = offcfg x).
+    { intros x. unfold resume. destruct (reqs x) as [|[| r |] q]; simpl; auto.
+      unfold set_mode. destruct (mode x); destruct r; simpl; auto. }
+    unfold dbg_exec.
+    destruct (transparent g m); simpl; auto.
+    destruct (mode d); simpl;
+      repeat match goal with
+             | |- context [if ?c then _ else _] => destruct c; simpl
+             end; auto; rewrite R; simpl; auto.
+  Qed.
+
+  Lemma d_run_offcfg_mono :
+    forall fuel n0 m t head ps d ps' d' s,
+      d_run mstep g fuel n0 m t head ps d = (ps', d', s) -> offcfg d = true -> offcfg d' = true.
+  Proof.
+    induction fuel as [|k IH]; intros n0 m t head ps d ps' d' s Hrun Ho.
+    - simpl in Hrun. inversion Hrun; subst; auto.
+    - cbn [d_run] in Hrun.
+      assert (Hhead : exists stop d1, (if head then dbg_exec g m t d else (false, d)) = (stop, d1) /\ offcfg d1 = true).
+      { destruct head.
+        - exists (fst (dbg_exec g m t d)), (snd (dbg_exec g m t d)).
+          split; [apply surjective_pairing|rewrite dbg_exec_offcfg; auto].
+        - exists false, d. auto. }
+      destruct Hhead as (stop & d1 & Hd1 & Ho1). rewrite Hd1 in Hrun.
+      destruct stop; [inversion Hrun; subst; auto|].
+      destruct (mstep ps) as [[ps1 a]|]; [|inversion Hrun; subst; auto].
+      destruct a as [n | [[p n]|] | ].
+      + destruct (d_run mstep g k n (Some n) (Some n) true ps1 (enter_call d1)) as [[ps2 d2] s2] eqn:En.
+        assert (Ho2 : offcfg d2 = true) by (eapply IH; [exact En|simpl; auto]).
+        destruct s2; try (inversion Hrun; subst; simpl; auto).
+        eapply IH; [exact Hrun|simpl; auto].
+      + eapply IH; [exact Hrun|simpl; rewrite Ho1; auto].
+      + inversion Hrun; subst; auto.
+      + inversion Hrun; subst; auto.
+  Qed.
+
+  Lemma not_true_false b : (b = true -> False) -> b = false.
+  Proof. destruct b; auto. intros H; exfalso; auto. Qed.
+
+  Lemma d_run_exact :
+    distinct_succ g ->
+    forall fuel n0 t head ps d ps' d' s,
+      d_run mstep g fuel n0 t t head ps d = (ps', d', s) ->
+      offcfg d' = false ->
+      all_exact (heads d) ->
+      all_exact (heads d').
+  Proof.
+    intros Hd.
+    induction fuel as [|k IH]; intros n0 t head ps d ps' d' s Hrun Hoff Hex.
+    - simpl in Hrun. inversion Hrun; subst; auto.
+    - cbn [d_run] in Hrun.
+      assert (Hhead : exists stop d1, (if head then dbg_exec g t t d else (false, d)) = (stop, d1)
+                                      /\ all_exact (heads d1)).
+      { destruct head.
+        - exists (fst (dbg_exec g t t d)), (snd (dbg_exec g t t d)).
+          split; [apply surjective_pairing|].
+          rewrite dbg_exec_heads. intros a b [H|H]; [inversion H; subst; auto|apply Hex; auto].
+        - exists false, d. auto. }
+      destruct Hhead as (stop & d1 & Hd1 & Hx1). rewrite Hd1 in Hrun.
+      destruct stop; [inversion Hrun; subst; auto|].
+      destruct (mstep ps) as [[ps1 a]|]; [|inversion Hrun; subst; auto].
+      destruct a as [n | [[p n]|] | ].
+      + destruct (d_run mstep g k n (Some n) (Some n) true ps1 (enter_call d1)) as [[ps2 d2] s2] eqn:En.
+        assert (Ho2 : offcfg d2 = false).
+        { apply not_true_false. intros Ht.
+          destruct s2.
+          - assert (offcfg d' = true) by (eapply d_run_offcfg_mono; [exact Hrun|simpl; auto]). congruence.
+          - inversion Hrun; subst. simpl in Hoff. congruence.
+          - inversion Hrun; subst. simpl in Hoff. congruence.
+          - inversion Hrun; subst. simpl in Hoff. congruence.
+          - inversion Hrun; subst. simpl in Hoff. congruence. }
+        assert (Hx2 : all_exact (heads d2)) by (eapply IH; [exact En|exact Ho2|simpl; auto]).
+        destruct s2; try (inversion Hrun; subst; simpl; auto).
+        eapply IH; [exact Hrun|exact Hoff|simpl; auto].
+      + (* a closure is returned *)
+        assert (Hom : offcfg (mark d1 (tf_step g t p n)) = false).
+        { apply not_true_false. intros Ht.
+          assert (offcfg d' = true) by (eapply d_run_offcfg_mono; [exact Hrun|exact Ht]). congruence. }
+        simpl in Hom. apply orb_false_elim in Hom. destruct Hom as (_ & Htf).
+        apply negb_false_iff in Htf.
+        destruct t as [tn|]; [|simpl in Htf; discriminate].
+        rewrite (tf_step_track n0 tn p n Hd Htf) in Hrun.
+        eapply IH; [exact Hrun|exact Hoff|simpl; auto].
       + inversion Hrun; subst; auto.
       + inversion Hrun; subst; auto.
   Qed.
@@ -322,7 +461,7 @@ Lemma d_init_okmode rq : okmode (d_init rq).
 Proof. unfold d_init. apply resume_okmode. unfold okmode; simpl; congruence. Qed.
 
 Lemma d_init_events rq : events (d_init rq) = [] /\ heads (d_init rq) = [].
-Proof. unfold d_init. destruct (resume_events {| mode := REntry; fdepth := 0; fstep := 0; reqs := rq; events := []; heads := [] |}) as (-> & -> & _). auto. Qed.
+Proof. unfold d_init. destruct (resume_events {| mode := REntry; fdepth := 0; fstep := 0; reqs := rq; events := []; heads := []; offcfg := false |}) as (-> & -> & _). auto. Qed.
 
 Lemma breaks_session d : breaks (session_events d) = rev (breaks (events d)).
 Proof.
@@ -443,27 +582,49 @@ Proof.
   rewrite D, <- C. unfold g_breaks. apply exact_filter; auto.
 Qed.
 
-(** A static sufficient condition for one tracking step: the operation returned the closure of its
-    tnext, or of its fnext while the tnext is a closure of another generator. *)
-Lemma track_exact g n0 t s p :
-  ident g s = Some p ->
-  (tnext g t = Some s \/ (fnext g t = Some s /\ forall a, tnext g t = Some a -> ident g a <> Some p)) ->
-  track g n0 (Some t) p = Some s.
+(** Completeness from a static condition on the graph and a condition on the program alone: when the
+    two successors of a node never come from the same generator and the run stays on the graph (every
+    closure returned is the one of the running node's tnext or fnext), the tracker is exact at every
+    consultation and every flagged node that executes is reported, in order. *)
+Lemma events_complete_static St (mstep : St -> option (St * act)) g fuel ps rq :
+  distinct_succ g ->
+  no_terminate rq ->
+  d_session_oncfg mstep g fuel ps rq = true ->
+  (forall m t, In (m, t) (ses_heads (d_session mstep g fuel ps rq)) -> m = t)
+  /\ breaks (ses_events (d_session mstep g fuel ps rq)) = g_breaks g (pl_visited (p_session mstep fuel ps)).
 Proof.
-  intros Hid [Ht|(Hf & Hd)]; unfold track, is_exec_node.
-  - rewrite Ht, Hid, N.eqb_refl. reflexivity.
-  - destruct (tnext g t) as [a|] eqn:Ea.
-    + specialize (Hd a eq_refl). destruct (ident g a) as [q|] eqn:Eq.
-      * destruct (N.eqb_spec q p) as [->|]; [congruence|]. rewrite Hf, Hid, N.eqb_refl. reflexivity.
-      * rewrite Hf, Hid, N.eqb_refl. reflexivity.
-    + rewrite Hf, Hid, N.eqb_refl. reflexivity.
+  intros Hd Hq Hon.
+  assert (Hall : forall m t, In (m, t) (ses_heads (d_session mstep g fuel ps rq)) -> m = t).
+  { unfold d_session_oncfg in Hon. unfold d_session.
+    destruct (d_run mstep g fuel 0 None None false ps (d_init rq)) as [[ps' d'] s] eqn:E.
+    unfold ses_heads. cbn [snd].
+    apply negb_true_iff in Hon.
+    assert (X : all_exact (heads d')).
+    { eapply (d_run_exact St mstep g Hd); [exact E|exact Hon|].
+      destruct (d_init_events rq) as (_ & ->). intros a b []. }
+    intros m t Hin. apply in_rev in Hin. apply X; auto. }
+  split; auto.
+  apply events_complete_partial; auto.
+  intros m t Hin _. apply Hall; auto.
 Qed.
 
-(** ... and what happens otherwise: the tnext wins although the fnext runs. *)
-Lemma track_prefers_tnext g n0 t a s p :
-  tnext g t = Some a -> fnext g t = Some s -> ident g a = Some p -> ident g s = Some p ->
-  track g n0 (Some t) p = Some a.
-Proof. intros Ha Hs Hia His. unfold track, is_exec_node. rewrite Ha, Hia, N.eqb_refl. reflexivity. Qed.
+Lemma static_inhabited :
+  distinct_succ w_ok
+  /\ d_session_oncfg replay_step w_ok 10 w_ok_run w_ok_reqs = true
+  /\ breaks (ses_events (d_session replay_step w_ok 10 w_ok_run w_ok_reqs)) = [Some 0; Some 2].
+Proof.
+  split; [|vm_compute; auto].
+  intros n a b Ha Hb. simpl in Hb. discriminate.
+Qed.
+
+(** The witnesses of the refutations violate one of the two conditions each. *)
+Lemma witnesses_outside :
+  ~ distinct_succ w_if
+  /\ d_session_oncfg replay_step w_loop 20 w_loop_run [] = false.
+Proof.
+  split; [|vm_compute; auto].
+  intros H. apply (H 0 1 2); simpl; auto.
+Qed.
 
 (* ------------------------------------------------------------------ *)
 (** * The full statement and its refutation on the faithful model *)
